@@ -22,7 +22,7 @@ func init() {
 			"(6) the poll re-sends until acknowledged: in StreamWAL's ticker loop every iteration that finds the log ahead of the session's acknowledged position calls sendUpdatedEntries — no loop-local 'already sent' state may suppress the retransmission (pushed messages can be lost: the replica abandons receivers on timeout); (7) shared with C13: the replica's cursor discipline (a cursor advanced past an entry that was not applied makes the gap permanent). " +
 			"(8) the 'nothing to send' exits of the catch-up reader are decided by the requested position and the log's own counter only; the replica does not lower its gRPC receive limit below the library default.",
 		NotDecided: "convergence itself, time bounds, join/restart timing, the replica state machine's liveness, retention racing with a slow replica.",
-		Rules:      []func(*Ctx, *Reporter){ruleC14ObserversFollow, ruleC14ObserversSee, ruleC14SeqContract, ruleC14CursorUnits, ruleC14CatchUp, ruleC14PollRetransmits, ruleReplCursor, ruleCatchUpGuard, ruleNoReceiveLimit},
+		Rules:      []func(*Ctx, *Reporter){ruleC14ObserversFollow, ruleC14ObserversSee, ruleC14SeqContract, ruleC14CursorUnits, ruleC14CatchUp, ruleC14PollRetransmits, ruleReplCursor, ruleCatchUpGuard, ruleNoReceiveLimit, ruleCatchUpFlushesFirst, ruleReplEntryCodec},
 	})
 }
 
